@@ -112,7 +112,9 @@ func gen(t *rapid.T) Case {
 			// a definition that parses but whose projection cannot be constructed: every call of a transformer from or
 			// to it returns an error, the first call and every later one alike
 			s = rapid.SampledFrom([]string{"+proj=utm +ellps=WGS84", "+proj=utm +datum=NAD27", "+proj=lcc +lat_1=30 +lat_2=-30 +ellps=WGS84",
-				"+proj=aea +lat_1=30 +lat_2=-30 +ellps=GRS80 +towgs84=1,2,3", "+proj=stere +lat_0=90 +ellps=WGS84", "+proj=nosuchprojection +a=6378137 +b=6356752"}).Draw(t, "unb")
+				"+proj=aea +lat_1=30 +lat_2=-30 +ellps=GRS80 +towgs84=1,2,3", "+proj=stere +lat_0=90 +ellps=WGS84", "+proj=nosuchprojection +a=6378137 +b=6356752",
+				"+proj=eqdc +lat_1=0 +lat_0=0 +lon_0=0 +ellps=WGS84", "+proj=eqdc +lat_1=30 +lat_2=-30 +lat_0=0 +lon_0=0 +ellps=WGS84", "+proj=lcc +lat_1=0 +lat_0=0 +lon_0=0 +ellps=WGS84",
+				"+proj=aea +lat_1=0 +lat_0=0 +lon_0=0 +ellps=WGS84"}).Draw(t, "unb")
 			unbuildable = true
 			c.Unbuildable = true
 		}
@@ -306,7 +308,13 @@ var errFake = errors.New("fake transformer failure")
 
 func runGeom(c Case) (v vkit.Verdict) {
 	v.Class("geom_" + c.G.T)
-	g := c.G.Geom()
+	g, sameG := vkit.SharedGeom(*c.G)
+	defer func() {
+		if m := sameG(); m != "" && !v.Bad {
+			v = v.Fail("the call changed the geometry it was given (point lists are sub-slices of one array with spare capacity): %s", m)
+		}
+	}()
+
 	before, _ := vkit.FromGeom(g)
 	verts := c.G.Flatten()
 	a := c.Aff
